@@ -141,17 +141,49 @@ def deleteAssoc (sv : Server) (ns : Name) (p : Path) : Except PyExc Server :=
         if multi.any (fun n => (findNs sv.repo n).isNone) then .error .keyError
         else .ok { sv with repo := delInsts sv.repo (multi ++ [ns]) orig.path }
 
-/-- write requests for association instances -/
+/-- `for ipath in inst_paths: self.providerdispatcher.DeleteInstance(ipath)`: the first failure aborts
+    (the caller then restores its snapshot: nothing changed) -/
+def deleteAll (sv : Server) (ns : Name) : List Path → Except PyExc Server
+  | [] => .ok sv
+  | p :: ps =>
+    match deleteAssoc sv ns p with
+    | .error e => .error e
+    | .ok sv' => deleteAll sv' ns ps
+
+/-- `class_store.delete(clname)` for every class of the list, in the store of namespace `ns` -/
+def removeClasses (r : Repo) (ns : Name) (names : List Name) : Repo :=
+  r.map (fun S => if ieq S.name ns then
+      { S with classes := S.classes.filter (fun c => !names.any (fun n => ieq n c.name)) } else S)
+
+/-- mirrors pywbem_mock/_mainprovider.py: MainProvider.DeleteClass for an association class: the class
+    and its subclasses are removed from the class store of the request namespace; before that every
+    instance of them stored in that namespace is deleted THROUGH DeleteInstance, i.e. together with its
+    copies in the other namespaces its ends name. -/
+def deleteClassAssoc (sv : Server) (ns : Name) (cn : Name) : Except PyExc Server :=
+  match findNs sv.repo ns with
+  | none => .error errNamespace
+  | some S =>
+    if !classExists S.classes cn then .error errNotFound
+    else
+      let sub := subNamesDeep (S.classes.length + 1) S.classes cn ++ [cn]
+      let victims := (S.insts.filter (fun i => sub.any (fun c => ieq c i.path.cls))).map (·.path)
+      match deleteAll sv ns victims with
+      | .error e => .error e
+      | .ok sv' => .ok { sv' with repo := removeClasses sv'.repo ns sub }
+
+/-- write requests for association instances and association classes -/
 inductive WOp where
   | create (ns : Name) (a : Inst)
   | modify (ns : Name) (p : Path) (chg : List IProp)
   | delete (ns : Name) (p : Path)
+  | deleteClass (ns : Name) (cn : Name)
   deriving Repr, Inhabited
 
 def applyW (sv : Server) : WOp → Except PyExc Server
   | .create ns a => createAssoc sv ns a
   | .modify ns p chg => modifyAssoc sv ns p chg
   | .delete ns p => deleteAssoc sv ns p
+  | .deleteClass ns cn => deleteClassAssoc sv ns cn
 
 /-- a failed request leaves the repository as it was; the history goes on -/
 def stepW (sv : Server) (op : WOp) : Server :=
@@ -200,6 +232,7 @@ def reqOkB (sv : Server) : WOp → Bool
   | .create ns a => createOkB sv.repo ns a
   | .modify ns p chg => modifyOkB sv ns p chg
   | .delete _ _ => true
+  | .deleteClass _ _ => true
 
 def histOkB : Server → List WOp → Bool
   | _, [] => true
